@@ -116,7 +116,7 @@ def build(cfg, force=False, verbose=False, repo=None):
     repo: analyse a scratch copy of the repository instead of /repo (sensitivity self-test only)."""
     cwd, cargo_args, extra_flags, floors = CONFIGS[cfg]
     if repo is not None:
-        cwd = _scratch_corpus(repo) if cfg == "X" else repo
+        cwd = _scratch_corpus(repo) if cfg == "X" else (cwd if cfg == "F" else repo)
     extra = [os.path.join(VERIF, "corpus")] if cfg == "X" else ([os.path.join(VERIF, "fixtures")] if cfg == "F" else [])
     th = tree_hash(extra, repo)
     out = os.path.join(CACHE, "facts", th, cfg)
